@@ -272,6 +272,52 @@ fn durable_checkpoint(req: &Value) -> Value {
            "violates": !missing.is_empty()})
 }
 
+/// C11 D1: a second durable write of the same key is started between the first one's log append and its in-memory apply
+/// (schedule hook); afterwards the value readers see must be the value a restart recovers from the log.
+fn durable_order(req: &Value) -> Value {
+    use std::sync::{mpsc, Arc, Mutex};
+    use tensor_store::{TensorData, TensorStore, TensorValue, ScalarValue};
+    let dir = tmpdir();
+    let path = dir.join("order.wal");
+    let key = match req["key_class"].as_str().unwrap_or("Metadata") {
+        "Embedding" => "emb:k1", "Graph" => "node:k1", "Table" => "table:k1", _ => "k1",
+    };
+    let val = |i: i64| { let mut d = TensorData::new(); d.set("v", TensorValue::Scalar(ScalarValue::Int(i))); d };
+    let read = |s: &TensorStore| s.get(key).ok().and_then(|t| match t.get("v") { Some(TensorValue::Scalar(ScalarValue::Int(i))) => Some(*i), _ => None });
+    let store = match TensorStore::open_durable(&path, WalConfig::default()) { Ok(s) => s, Err(e) => return json!({"error": e.to_string()}) };
+    let _ = store.put_durable(key, val(0));
+    let slot: Arc<Mutex<Option<std::thread::JoinHandle<bool>>>> = Arc::new(Mutex::new(None));
+    let main_thread = std::thread::current().id();
+    let fired = Arc::new(std::sync::atomic::AtomicBool::new(false));
+    let (s2, slot2, fired2, key2) = (store.clone(), slot.clone(), fired.clone(), key.to_string());
+    *tensor_store::slab_router::VERIF_DURABLE_WINDOW.write().unwrap() = Some(Arc::new(move |_k: &str| {
+        if std::thread::current().id() != main_thread || fired2.swap(true, std::sync::atomic::Ordering::SeqCst) {
+            return;
+        }
+        let (tx, rx) = mpsc::channel();
+        let (s3, k3) = (s2.clone(), key2.clone());
+        let h = std::thread::spawn(move || {
+            let mut d = TensorData::new();
+            d.set("v", TensorValue::Scalar(ScalarValue::Int(2)));
+            let r = s3.put_durable(k3, d).is_ok();
+            let _ = tx.send(());
+            r
+        });
+        let _ = rx.recv_timeout(std::time::Duration::from_millis(300));
+        *slot2.lock().unwrap() = Some(h);
+    }));
+    let first_ok = if req["router_op"].as_str() == Some("delete_durable") { store.delete_durable(key).is_ok() } else { store.put_durable(key, val(1)).is_ok() };
+    *tensor_store::slab_router::VERIF_DURABLE_WINDOW.write().unwrap() = None;
+    let second_ok = slot.lock().unwrap().take().map(|h| h.join().unwrap_or(false));
+    let in_memory = read(&store);
+    drop(store);
+    let rec = TensorStore::recover(&path, &WalConfig::default(), None);
+    let recovered = rec.as_ref().ok().and_then(|s| read(s));
+    let _ = std::fs::remove_dir_all(&dir);
+    json!({"first_ok": first_ok, "second_ok": second_ok, "readers_last_saw": in_memory, "recovered_after_restart": recovered, "recover_error": rec.err().map(|e| e.to_string()),
+           "violates": first_ok && second_ok == Some(true) && in_memory != recovered})
+}
+
 /// W5: r1, cut inside it, reopen, append r2, cut inside it, reopen, append r3, restart; which records the final replay has.
 macro_rules! double_crash {
     ($name:ident, $open:expr, $rec:expr) => {
@@ -314,6 +360,7 @@ double_crash!(tensor_double, |p: &std::path::Path| TensorWal::open(p, WalConfig:
 pub fn handle(op: &str, req: &Value) -> Option<Value> {
     Some(match op {
         "durable_op" => durable_op(req),
+        "durable_order" => durable_order(req),
         "durable_checkpoint" => durable_checkpoint(req),
         "durable_rotation" => {
             // acknowledged puts across a log rotation (no checkpoint), then recovery from the log alone
